@@ -3817,4 +3817,202 @@ theorem record_program_matches' (c : Config) (fl : Flags) (sp batched hasPr : Bo
     filter_map_cons_ite, List.filter_nil, List.map_nil, List.append_nil]
   simp [atomVal, guardVal, List.lookup, hop, Bool.and_assoc]
 
+/-! ## Phase 6: a consumer that stops early (`evaluateStopped`, `resumeStopped`, `runHistoryS`) -/
+section stopped
+variable {V R : Type} [DecidableEq V] [RewardFn R V] {σ : Type}
+
+
+theorem runChunks_append (c : Config) (fl : Flags) (L : Learner σ V) (b : Bool) :
+    ∀ (A B : List (List (Dict (Fld V R)))) (s : σ) (cs : List (Call V)) (rs : List (Row V R)),
+    runChunks c fl L b s cs rs (A ++ B) =
+      (runChunks c fl L b s cs rs A).bind fun r => runChunks c fl L b r.1 r.2.1 r.2.2 B := by
+  intro A
+  induction A with
+  | nil => intro B s cs rs; rfl
+  | cons ch A ih =>
+    intro B s cs rs
+    simp only [List.cons_append, runChunks]
+    cases stepChunk c fl L b s ch with
+    | error e => rfl
+    | ok r => simp only [Except.bind]; exact ih B _ _ _
+
+theorem runChunks_acc (c : Config) (fl : Flags) (L : Learner σ V) (b : Bool) :
+    ∀ (A : List (List (Dict (Fld V R)))) (s s' : σ) (cs cs' : List (Call V)) (rs rs' : List (Row V R)),
+    runChunks c fl L b s cs rs A = .ok (s', cs', rs') → cs <+: cs' ∧ rs <+: rs' := by
+  intro A
+  induction A with
+  | nil =>
+    intro s s' cs cs' rs rs' h
+    simp only [runChunks, Except.ok.injEq, Prod.mk.injEq] at h
+    obtain ⟨_, h2, h3⟩ := h
+    subst h2; subst h3
+    exact ⟨List.prefix_refl _, List.prefix_refl _⟩
+  | cons ch A ih =>
+    intro s s' cs cs' rs rs' h
+    simp only [runChunks] at h
+    cases hst : stepChunk c fl L b s ch with
+    | error e => rw [hst] at h; cases h
+    | ok r =>
+      rw [hst] at h
+      simp only [Except.bind] at h
+      obtain ⟨h1, h2⟩ := ih _ _ _ _ _ _ h
+      exact ⟨(List.prefix_append _ _).trans h1, (List.prefix_append _ _).trans h2⟩
+
+theorem stopped_prefix' (c : Config) (L : Learner σ V) (bs : Option Nat) (env : List (Dict (Fld V R))) (s s' : σ) (j : Nat)
+    (calls : List (Call V)) (rows : List (Row V R)) (h : evaluate c L bs env s = .ok (s', calls, rows)) :
+    ∃ r : σ × List (Call V) × List (Row V R), evaluateStopped c L bs env s j = .ok r ∧ r.2.1 <+: calls ∧ r.2.2 <+: rows ∧
+      resumeStopped c L bs env j r = .ok (s', calls, rows) := by
+  cases env with
+  | nil =>
+    simp only [evaluate, Outcome.ok.injEq, Prod.mk.injEq] at h
+    obtain ⟨h1, h2, h3⟩ := h
+    subst h1; subst h2; subst h3
+    exact ⟨(s, [], []), rfl, List.prefix_refl _, List.prefix_refl _, rfl⟩
+  | cons first rest =>
+    simp only [evaluate, evaluateStopped, resumeStopped] at h ⊢
+    by_cases hm : (!(missingKeys c L.hasScore first).isEmpty) = true
+    · simp only [hm, if_true] at h; cases h
+    · simp only [hm] at h ⊢
+      simp only [Bool.false_eq_true, if_false] at h ⊢
+      cases bs with
+      | some n =>
+        simp only at h ⊢
+        rw [← List.take_append_drop j (chunks n (first :: rest)), runChunks_append] at h
+        cases hr : runChunks c (mkFlags first) L true s [] [] (List.take j (chunks n (first :: rest))) with
+        | error e => rw [hr] at h; cases h
+        | ok r =>
+          rw [hr] at h
+          simp only [Except.bind] at h
+          cases hq : runChunks c (mkFlags first) L true r.1 r.2.1 r.2.2 (List.drop j (chunks n (first :: rest))) with
+          | error e => rw [hq] at h; cases h
+          | ok q =>
+            rw [hq] at h
+            simp only [Outcome.ofExcept, Outcome.ok.injEq] at h
+            subst h
+            obtain ⟨h1, h2⟩ := runChunks_acc c _ L true _ _ _ _ _ _ _ hq
+            exact ⟨r, rfl, h1, h2, by rw [hq]; rfl⟩
+      | none =>
+        simp only at h ⊢
+        rw [← List.take_append_drop j (chunks 1 (first :: rest)), runChunks_append] at h
+        cases hr : runChunks c (mkFlags first) L false s [] [] (List.take j (chunks 1 (first :: rest))) with
+        | error e => rw [hr] at h; cases h
+        | ok r =>
+          rw [hr] at h
+          simp only [Except.bind] at h
+          cases hq : runChunks c (mkFlags first) L false r.1 r.2.1 r.2.2 (List.drop j (chunks 1 (first :: rest))) with
+          | error e => rw [hq] at h; cases h
+          | ok q =>
+            rw [hq] at h
+            simp only [Outcome.ofExcept, Outcome.ok.injEq] at h
+            subst h
+            obtain ⟨h1, h2⟩ := runChunks_acc c _ L false _ _ _ _ _ _ _ hq
+            exact ⟨r, rfl, h1, h2, by rw [hq]; rfl⟩
+
+theorem stopped_unbatched_take' (c : Config) (L : Learner σ V) (env : List (Dict (Fld V R))) (s : σ) (j : Nat) (hj : 0 < j) :
+    evaluateStopped c L none env s j = evaluate c L none (env.take j) s := by
+  cases env with
+  | nil => simp [evaluateStopped, evaluate]
+  | cons first rest =>
+    obtain ⟨k, rfl⟩ : ∃ k, j = k + 1 := ⟨j - 1, by omega⟩
+    simp only [evaluateStopped, evaluate, List.take_succ_cons, chunks_one, List.map_cons, List.map_take]
+
+omit [DecidableEq V] [RewardFn R V] in
+theorem chunksAux_length_le {α : Type} (n : Nat) : ∀ (fuel : Nat) (l : List α), (chunksAux n fuel l).length ≤ fuel := by
+  intro fuel
+  induction fuel with
+  | zero => intro l; simp [chunksAux]
+  | succ f ih =>
+    intro l
+    simp only [chunksAux]
+    split
+    · simp
+    · simp only [List.length_cons]; exact Nat.succ_le_succ (ih _)
+
+theorem stopped_all' (c : Config) (L : Learner σ V) (bs : Option Nat) (env : List (Dict (Fld V R))) (s : σ) (j : Nat)
+    (hj : env.length ≤ j) : evaluateStopped c L bs env s j = evaluate c L bs env s := by
+  cases env with
+  | nil => rfl
+  | cons first rest =>
+    have hl : ∀ n, (chunks n (first :: rest)).take j = chunks n (first :: rest) := fun n =>
+      List.take_of_length_le (Nat.le_trans (chunksAux_length_le n _ _) hj)
+    simp only [evaluateStopped, evaluate, hl]
+
+omit [DecidableEq V] [RewardFn R V] in
+
+theorem chunksAux_take {α : Type} (n : Nat) (hn : 0 < n) : ∀ (fuel fuel' : Nat) (l : List α) (j : Nat),
+    l.length ≤ fuel → (l.take (j * n)).length ≤ fuel' →
+    (chunksAux n fuel l).take j = chunksAux n fuel' (l.take (j * n)) := by
+  intro fuel
+  induction fuel with
+  | zero =>
+    intro fuel' l j h _
+    have : l = [] := List.eq_nil_of_length_eq_zero (by omega)
+    subst this
+    cases fuel' <;> simp [chunksAux]
+  | succ f ih =>
+    intro fuel' l j h h'
+    cases l with
+    | nil => cases fuel' <;> simp [chunksAux]
+    | cons x xs =>
+      cases j with
+      | zero => cases fuel' <;> simp [chunksAux]
+      | succ k =>
+        have hpos : 0 < (k + 1) * n := Nat.mul_pos (Nat.succ_pos _) hn
+        have hne : ((x :: xs).take ((k + 1) * n)).length ≠ 0 := by
+          simp only [List.length_take, List.length_cons]; omega
+        cases fuel' with
+        | zero => omega
+        | succ f' =>
+          have he : ((x :: xs).take ((k + 1) * n)).isEmpty = false := by
+            cases hq : (x :: xs).take ((k + 1) * n) with
+            | nil => rw [hq] at hne; simp at hne
+            | cons _ _ => rfl
+          simp only [chunksAux, List.isEmpty_cons, Bool.false_eq_true, if_false, he, List.take_succ_cons]
+          have h1 : List.take n (List.take ((k + 1) * n) (x :: xs)) = List.take n (x :: xs) := by
+            rw [List.take_take]; congr 1; rw [Nat.add_mul]; omega
+          have h2 : List.drop n (List.take ((k + 1) * n) (x :: xs)) = List.take (k * n) (List.drop n (x :: xs)) := by
+            rw [List.drop_take]; congr 1; rw [Nat.add_mul]; omega
+          rw [h1, h2]
+          congr 1
+          apply ih
+          · simp only [List.length_drop, List.length_cons] at h ⊢; omega
+          · rw [← h2]; simp only [List.length_drop]; omega
+
+theorem chunks_take {α : Type} (n : Nat) (hn : 0 < n) (l : List α) (j : Nat) :
+    (chunks n l).take j = chunks n (l.take (j * n)) :=
+  chunksAux_take n hn _ _ l j (Nat.le_refl _) (Nat.le_refl _)
+
+theorem stopped_batched_take' (c : Config) (L : Learner σ V) (n : Nat) (hn : 0 < n) (env : List (Dict (Fld V R))) (s : σ) (j : Nat)
+    (hj : 0 < j) : evaluateStopped c L (some n) env s j = evaluate c L (some n) (env.take (j * n)) s := by
+  cases env with
+  | nil => simp [evaluateStopped, evaluate]
+  | cons first rest =>
+    obtain ⟨k, hk⟩ : ∃ k, j * n = k + 1 := ⟨j * n - 1, by have := Nat.mul_pos hj hn; omega⟩
+    have ht : (first :: rest).take (j * n) = first :: rest.take k := by rw [hk]; rfl
+    have hc := chunks_take n hn (first :: rest) j
+    rw [ht] at hc
+    simp only [evaluateStopped, evaluate, ht, hc]
+
+theorem abandoned_history' (L : Learner σ V) : ∀ (es : List (EpisodeS V R)) (s : σ), (∀ e ∈ es, e.okStop) →
+    runHistoryS L s es = runHistory L s (es.map EpisodeS.seen) := by
+  intro es
+  induction es with
+  | nil => intro s _; rfl
+  | cons e es ih =>
+    intro s h
+    have he := h e (List.mem_cons_self ..)
+    have hev : e.run L s = evaluate e.seen.cfg L e.seen.bs e.seen.env s := by
+      unfold EpisodeS.run
+      cases hs : e.stop with
+      | none => simp only [EpisodeS.seen, hs]
+      | some j =>
+        have hj := he.1 j hs
+        cases hb : e.bs with
+        | none => simp only [EpisodeS.seen, hs, hb, Option.getD_none, Nat.mul_one]; exact stopped_unbatched_take' _ L _ s j hj
+        | some n => simp only [EpisodeS.seen, hs, hb, Option.getD_some]; exact stopped_batched_take' _ L n (he.2 n hb) _ s j hj
+    simp only [runHistoryS, List.map_cons, runHistory, hev]
+    rw [ih _ (fun e' he' => h e' (List.mem_cons_of_mem _ he'))]
+
+end stopped
+
 end Coba.C06
